@@ -1922,6 +1922,7 @@ SUITES = {
     "srv_auth": lambda r, n, tier: gen_srv(r, n, tier, False, True),
     "role": gen_role,
     "pty_srv": gen_pty_srv,
+    "sserver": lambda r, n, tier: ("pty rsrv " + c[len("sserver "):] if c.startswith("sserver ") else c for c in __import__("gen_sserver").gen_sserver(r, n, tier)),
     "sport": lambda r, n, tier: ("pty port " + c[len("sport "):] if c.startswith("sport ") else c for c in __import__("gen_sport").gen_sport(r, n, tier)),
     "pty_cli": gen_pty_cli,
 }
